@@ -19,7 +19,8 @@ RULE = ("Episodes = meshed template net + seeded edits (extra lines, load scalin
         "failing cases (natural non-convergence and callback-fail(n) at the evaluation-function seam), raise_errors, "
         "write_to_net, optional injected exception inside the N-1 loop. Non-trivial = extremes were recomputed from "
         "the recorded per-case history and compared; distinct = distinct (template, number of cases by element type, "
-        "own-outage-first, failed-case pattern, raise_errors, write_to_net, second-order permutation class).")
+        "own-outage-first, failed-case pattern, raise_errors, write_to_net, second-order permutation class)."
+        ' Separate N-0/N-1 option dicts (routing checked at the seam), two seeded N-1 cases re-evaluated independently, recycle option passed, case index forms, rundcpp as evaluation function.')
 COMPONENTS = {"real": ["run_contingency, runpp (inside the recording wrapper)"],
               "stub": ["recording/failing wrapper at contingency_evaluation_function", "ExtremesModel"]}
 ASSUMPTIONS = ["the per-case results recorded at the evaluation-function seam are the ground truth the extremes are "
